@@ -3,7 +3,7 @@
    flattened to one nested list of naturals so that one equality test compares everything. *)
 From Coq Require Import List Arith Bool NArith.
 From Verif.lib Require Import FinSet.
-From Verif.C04 Require Import Model.
+From Verif.C04 Require Import Model Boundary.
 Import ListNotations.
 
 Definition ob := list N.
@@ -71,6 +71,40 @@ Definition obs_of (ok : bool) (st : hspace) (ret : list set) (prev root : hspace
         ++ enc (cshape st l) (support (msh st l) funcs)
         ++ enc (fshape st l) (supported_in (msh st l) cells)) qs.
 
+(* ordered list of multi-indices inside a box: length, then the raveled indices in order *)
+Definition encl (shape : list nat) (l : list mi) : list N :=
+  if forallb (inboxb shape) l
+  then N.of_nat (length l) :: map (fun x => N.of_nat (ravel shape x)) l
+  else [999999%N].
+
+Definition enco (o : option (list nat)) : list N :=
+  match o with None => [0%N] | Some l => 1%N :: N.of_nat (length l) :: map N.of_nat l end.
+
+(* the boundary / Dirichlet / smoothing observations of the driver (boundary_obs) *)
+Definition bd_obs (st : hspace) (bds : list bdspec) (bd : bdspec) (with_boundary : bool) : ob :=
+  let L := numlevels st in
+  let lv_i := flat_map (fun lv => map (pair lv) (seq 0 L)) (seq 0 L) in
+  flat_map (fun p => enc (fshape st (snd p)) (index_dirichlet st bds (fst p) (snd p))) lv_i
+  ++ flat_map (fun p => encl (fshape st (snd p)) (new_indices st bds (fst p) (snd p))) lv_i
+  ++ flat_map (fun p => encl (fshape st (snd p)) (cell_supp_indices st bds true (hs_disparity st) (fst p) (snd p))) lv_i
+  ++ flat_map (fun p => encl (fshape st (snd p)) (cell_supp_indices st bds false (hs_disparity st) (fst p) (snd p))) lv_i
+  ++ flat_map (fun p => encl (fshape st (snd p)) (global_indices st (fst p) (snd p))) lv_i
+  ++ flat_map (fun lv => enco (smooth_new st bds lv)) (seq 0 L)
+  ++ flat_map (fun lv => enco (smooth_cell_supp st bds lv)) (seq 0 L)
+  ++ flat_map (fun lv => enco (dirichlet_dofs st bds lv)) (seq 0 L)
+  ++ enco (non_dirichlet_dofs st bds)
+  ++ (if with_boundary then
+        match boundary_space st bd with
+        | None => [0%N]
+        | Some b =>
+            1%N :: N.of_nat (numlevels b)
+            :: flat_map (fun k => let l := lvl b k in
+                  enc (cshape b k) (lv_active l) ++ enc (cshape b k) (lv_deact l)
+                  ++ enc (fshape b k) (lv_actfun l) ++ enc (fshape b k) (lv_deactfun l)) (seq 0 (numlevels b))
+            ++ enco (boundary_mapping st bd)
+        end
+      else []).
+
 Definition step_full (st : hspace) (o : op) : hspace * bool * list set :=
   match o with
   | Refine raw trunc =>
@@ -84,14 +118,16 @@ Definition step_full (st : hspace) (o : op) : hspace * bool * list set :=
 
 (* per call: the op, whether the incidence matrix / the mesh tables are compared, the query
    arguments, and whether this step is compared at all *)
-Definition stepinfo := (op * bool * bool * list query * bool)%type.
+Definition stepinfo := (op * bool * bool * list query * option (list bdspec * bdspec * bool) * bool)%type.
 
 Fixpoint obs_steps (root st : hspace) (first : bool) (steps : list stepinfo) : list (option ob) :=
   match steps with
   | [] => []
-  | (o, with_inc, with_tables, qs, cmp) :: rest =>
+  | (o, with_inc, with_tables, qs, bq, cmp) :: rest =>
       let '(st', ok, ret) := step_full st o in
-      (if cmp then Some (obs_of ok st' ret st root first with_inc with_tables qs) else None)
+      (if cmp then Some (obs_of ok st' ret st root first with_inc with_tables qs
+                         ++ match bq with None => [] | Some (bds, bd, wb) => bd_obs st' bds bd wb end)
+       else None)
       :: obs_steps root st' false rest
   end.
 
